@@ -426,13 +426,17 @@ impl File {
                 None => continue,
                 Some(char_dimens) => char_dimens,
             };
-            let width = self.widths[char_dimens.width_index.get() as usize].0;
+            // The calculation is done with 64-bit integers: for widths of more than a thousand
+            // design units the sum does not fit in 32 bits, and for very negative widths it is
+            // negative ("this should be positive" in PLtoTF.2014.134).
+            let width: i64 = self.widths[char_dimens.width_index.get() as usize].0.into();
             // TODO: adjust based on the design units
-            let width = width + (c as i32 + 4) * 0o20_000_000;
+            let width = width + (c as i64 + 4) * 0o20_000_000;
             let add = |b: u8, m: u8| -> u8 {
-                (((b as i32) + (b as i32) + width) % (m as i32))
+                ((b as i64) + (b as i64) + width)
+                    .rem_euclid(m as i64)
                     .try_into()
-                    .expect("(i32 % u8) is always a u8")
+                    .expect("the remainder modulo a u8 is always a u8")
             };
             b = [
                 add(b[0], 255),
